@@ -307,6 +307,17 @@ Definition C18_run_stmt : Prop :=
     forall (m : @machine I P) (h : list (@op I P)),
       run keq hash1 ple peq alloc_limit m h = run keq hash2 ple peq alloc_limit m h.
 
+(** [clear] leaves an empty store whatever the [Drop]s of the stored items and
+    priorities do (they are callbacks of [OClear]): proved in ClearDrop.v *)
+Definition emptied (s : store) : Prop :=
+  smap s = [] /\ heap s = [] /\ qp s = [] /\ ssize s = 0.
+Definition C16_clear_any_drop_stmt : Prop :=
+  forall (fz : option nat) (m : @machine I P) r k s,
+    getreg m r = Some (k, s) -> r < length m ->
+    let res := step1 keq hash ple peq alloc_limit fz m (OClear r) in
+    (res.2 = OutUnit \/ res.2 = OutUnwound) /\
+    exists s', getreg res.1 r = Some (k, s') /\ emptied s'.
+
 (** ** C17 / C14: the ghost fields (capacity, comparison counter) never
     influence contents or results.  [erase] forgets them. *)
 Definition erase (s : store) : store := set_cap (set_ticks s 0) 0%N.
